@@ -74,10 +74,12 @@ fn gen_command(rng: &mut Rng, conn_id: u64) -> Vec<u8> {
                 _ => {
                     // client text with line breaks / frame look-alikes in every argument position
                     let evil: &[&[u8]] = &[b"10\r\n", b"+PONG\r\n+PONG", b"1\r\n:1", b"\r\n", b"7\n", b"x\r\n$-1"];
-                    let pos = rng.below(5) as usize;
+                    // numeric positions only: a line break inside the KEY is a valid request (and the key must stay unique per connection)
+                    let pos = 1 + rng.below(4) as usize;
                     let mut items = vec![bulk(b"THROTTLE"), bulk(key.as_bytes()), int(3), int(1), int(60), int(1)];
                     let e: &[u8] = evil[rng.below(evil.len() as u64) as usize]; items[1 + pos] = bulk(e);
                     if pos < 4 && rng.chance(1, 2) { items.truncate(5); }
+                    if rng.chance(1, 3) { items[1] = bulk(format!("c{}\r\n+k", conn_id).as_bytes()); }
                     array(&items)
                 }
             }
